@@ -1,4 +1,242 @@
-/- C05 — property theorems (stub; filled in by the owning work package). -/
-import Rdm.Basic
+/-
+  C05 — ELECTRE III indices follow the method's definition.  Property theorems only; helper lemmas are in
+  Rdm/Lemmas/Electre*.lean.  Arithmetic statements are over `Rat` (the model is generic in the number type;
+  the `Float` instance is the one tied bit-for-bit to the Go code), structural ones are generic.
+
+  Guard used throughout (`Spec.C05.critInDomain`, the decidable form of the property's quantifier text):
+  constant thresholds with `0 ≤ q < p < v`, each may be absent, veto only with a preference threshold, `k > 0`.
+-/
+import Rdm.Lemmas.ElectreCred
+import Rdm.Lemmas.ElectreTermination
+import Rdm.Lemmas.ElectreRefine
+import Rdm.Lemmas.ElectreSliceFlat
+import Mathlib.Tactic.NormNum
 namespace Rdm.Props.C05
+open Rdm
+
+/-! ### per-criterion concordance / discordance -/
+
+/-- "an alternative that is not worse on a criterion is fully concordant on it": `C = 1`, `D = 0`
+    (any number type, any thresholds) -/
+theorem not_worse_fully_concordant {α : Type} [Num α] (c1 c2 mult : α) (t : ECrit α) (h : c2 ≤ c1) :
+    (calcElectreResult c1 c2 mult t).c = Num.one ∧ (calcElectreResult c1 c2 mult t).d = Num.zero :=
+  crit_not_worse c1 c2 mult t h
+
+/-- under the threshold guard the per-criterion concordance and discordance are in [0,1] -/
+theorem crit_in_unit_interval (c1 c2 mult : Rat) (t : ECrit Rat) (h : Spec.C05.critInDomain t = true) :
+    (0 ≤ (calcElectreResult c1 c2 mult t).c ∧ (calcElectreResult c1 c2 mult t).c ≤ 1) ∧
+    (0 ≤ (calcElectreResult c1 c2 mult t).d ∧ (calcElectreResult c1 c2 mult t).d ≤ 1) := by
+  obtain ⟨r1, r2, r3, r4⟩ := crit_range c1 c2 mult t (critInDomain_guard t h).1
+  exact ⟨⟨r1, r2⟩, ⟨r3, r4⟩⟩
+
+/-- the per-criterion clause of the checker that the driver evaluates on Go's output holds for the model -/
+theorem crit_spec_holds (c1 c2 mult : Rat) (t : ECrit Rat) (h : Spec.C05.critInDomain t = true) :
+    Spec.C05.critOk c1 c2 (calcElectreResult c1 c2 mult t) = true :=
+  critOk_calc c1 c2 mult t h
+
+/-- closed form under the guard: `C` and `D` depend on the signed difference `g(b) − g(a)` only, through the
+    textbook piecewise-linear functions (absent threshold = 0) -/
+theorem crit_closed_form (c1 c2 mult : Rat) (t : ECrit Rat) (h : Spec.C05.critInDomain t = true) :
+    (calcElectreResult c1 c2 mult t).c = cOfDiff t.q.b t.p.b (c2 - c1) ∧
+    (calcElectreResult c1 c2 mult t).d = dOfDiff t.p.b t.v.b (c2 - c1) :=
+  calc_closed_form c1 c2 mult t (critInDomain_guard t h).1
+
+/-! ### weighted concordance and credibility -/
+
+/-- total concordance is in [0,1] for positive weights (the divisor `Σk` is positive) -/
+theorem totalC_in_unit_interval (rs : List (ESingle Rat)) (hne : rs ≠ []) (hk : ∀ r ∈ rs, 0 < r.k)
+    (hc : ∀ r ∈ rs, 0 ≤ r.res.c ∧ r.res.c ≤ 1) :
+    0 < weightSum rs ∧ 0 ≤ calculateTotalC rs ∧ calculateTotalC rs ≤ 1 :=
+  ⟨weightSum_pos rs hne hk, totalC_range rs hne hk hc⟩
+
+/-- credibility is in [0, C] ⊆ [0,1] (every divisor `1 − C` that is used is positive) -/
+theorem credibility_in_unit_interval (C : Rat) (hC0 : 0 ≤ C) (hC1 : C ≤ 1) (rs : List (ESingle Rat))
+    (hd : ∀ r ∈ rs, 0 ≤ r.res.d ∧ r.res.d ≤ 1) :
+    0 ≤ calculateCredibility C rs ∧ calculateCredibility C rs ≤ C :=
+  credibility_range C hC0 hC1 rs hd
+
+/-- every entry of the credibility matrix is in [0,1] and the diagonal is 1 -/
+theorem credibility_matrix_in_unit_interval (alts : List (Alt Rat)) (crits : List (Crit Rat)) (hne : crits ≠ [])
+    (ec : KMap (ECrit Rat))
+    (hg : ∀ c ∈ crits, ∀ t, ec.get? c.id = some t → Spec.C05.critInDomain t = true)
+    (m : Matrix Rat) (h : credibilityMatrix alts crits ec = .ok m) :
+    m.size = alts.length ∧
+    ∀ i j, i < alts.length → j < alts.length → (0 ≤ m.at i j ∧ m.at i j ≤ 1) ∧ (i = j → m.at i j = 1) := by
+  have hg' : GuardAll crits ec := fun c hc t ht => critInDomain_guard t (hg c hc t ht)
+  refine ⟨credibilityMatrix_size alts crits ec m h, fun i j hi hj => ⟨credibilityMatrix_range alts crits hne ec hg' m h i j hi hj, ?_⟩⟩
+  rintro rfl
+  exact credibilityMatrix_diag alts crits ec m h i hi
+
+/-! ### `betterThanOrSameAs` -/
+
+/-- the links clause of the checker holds for `evaluateRanking` -/
+theorem links_spec_holds (asc desc : List Int) (ids : List String)
+    (ha : asc.length = ids.length) (hd : desc.length = ids.length) :
+    Spec.C05.linksOk (evaluateRanking asc desc ids) = true :=
+  linksOk_evaluateRanking asc desc ids ha hd
+
+/-- entry i carries the two indices of alternative i, and lists b exactly when b is another alternative j
+    with asc i ≤ asc j and desc i ≤ desc j -/
+theorem links_characterisation (asc desc : List Int) (ids : List String)
+    (ha : asc.length = ids.length) (hd : desc.length = ids.length) (i : Nat) (hi : i < ids.length) :
+    ((evaluateRanking asc desc ids)[i]'(by rw [el_evaluateRanking_length _ _ _ ha hd]; exact hi)).id = ids[i] ∧
+    ((evaluateRanking asc desc ids)[i]'(by rw [el_evaluateRanking_length _ _ _ ha hd]; exact hi)).ev = (asc[i], desc[i]) ∧
+    ∀ b, b ∈ ((evaluateRanking asc desc ids)[i]'(by rw [el_evaluateRanking_length _ _ _ ha hd]; exact hi)).links ↔
+      ∃ (j : Nat) (hj : j < ids.length), j ≠ i ∧ ids[j] = b ∧ asc[i] ≤ asc[j] ∧ desc[i] ≤ desc[j] :=
+  el_evaluateRanking_getElem asc desc ids ha hd i hi
+
+/-- with distinct ids nobody lists itself and no link is repeated -/
+theorem links_wellformed (asc desc : List Int) (ids : List String)
+    (ha : asc.length = ids.length) (hd : desc.length = ids.length) (hn : ids.Nodup) :
+    ∀ e ∈ evaluateRanking asc desc ids, e.id ∉ e.links ∧ e.links.Nodup :=
+  fun e he => ⟨evaluateRanking_never_self asc desc ids ha hd hn e he, evaluateRanking_links_nodup asc desc ids ha hd hn e he⟩
+
+/-! ### matrix re-indexing -/
+
+/-- `(sub M I)[i,j] = M[I i, I j]` -/
+theorem sub_index_map {α : Type} [Num α] (m : Matrix α) (I : List Nat) (i j : Nat) (hi : i < I.length) (hj : j < I.length) :
+    (m.sub I).at i j = m.at I[i] I[j] := sub_at m I i j hi hj
+
+/-- `Slice`: `(slice M I)[i,j] = M[I' i, I' j]` with `I'` the ascending sort of `I` (proper sub-list case;
+    `slice M I = M` when `|I| = size`) -/
+theorem slice_index_map {α : Type} [Num α] (m : Matrix α) (idx : List Nat) (h : idx.length ≠ m.size) (i j : Nat)
+    (hi : i < idx.length) (hj : j < idx.length) :
+    (m.slice idx).size = idx.length ∧
+    (m.slice idx).at i j = m.at ((Matrix.sortIdx idx)[i]'(by rw [sortIdx_length]; exact hi))
+      ((Matrix.sortIdx idx)[j]'(by rw [sortIdx_length]; exact hj)) :=
+  ⟨slice_size m idx, slice_at m idx h i j hi hj⟩
+
+/-- `Without`: `(without M I)[i,j] = M[K i, K j]` with `K` the ascending list of the indices not in `I` -/
+theorem without_index_map {α : Type} [Num α] (m : Matrix α) (idx : List Nat) (h : idx.length ≠ m.size) (i j : Nat)
+    (hi : i < (m.keep idx).length) (hj : j < (m.keep idx).length) :
+    (m.without idx).at i j = m.at (m.keep idx)[i] (m.keep idx)[j] := without_at m idx h i j hi hj
+
+/-- the flat-array arithmetic of `Matrix.Slice` (row ranges appended, columns filtered by `i % Size`), modelled
+    literally as `sliceFlat`, computes the index-map sub-matrix `slice` that `distillate` uses — for distinct
+    in-range indices on a square matrix, any number type -/
+theorem slice_flat_array_is_index_map {α : Type} [Num α] (m : Matrix α) (h : m.data.length = m.size * m.size)
+    (idx : List Nat) (hn : idx.Nodup) (hr : ∀ i ∈ idx, i < m.size) : m.sliceFlat idx = m.slice idx :=
+  sliceFlat_eq_slice m h idx hn hr
+
+/-- likewise `Matrix.Without` (row ranges cut out from the back, columns filtered by `i % Size`), modelled
+    literally as `withoutFlat`, computes the sub-matrix on the complement of the indices -/
+theorem without_flat_array_is_index_map {α : Type} [Num α] (m : Matrix α) (h : m.data.length = m.size * m.size)
+    (idx : List Nat) (hn : idx.Nodup) (hr : ∀ i ∈ idx, i < m.size) : m.withoutFlat idx = m.without idx :=
+  withoutFlat_eq_without m h idx hn hr
+
+/-! ### distillation -/
+
+/-- `rank` (hence `RankAscending`) returns one class number per alternative -/
+theorem rank_length {α : Type} [Num α] (m : Matrix α) (s : LinFun α) (cmp : Int → Int → Bool) (ps : List Int)
+    (h : rank m s cmp = .ok ps) : ps.length = m.size := Rdm.rank_length m s cmp ps h
+
+/-- `RankDescending` returns one class number per alternative -/
+theorem rankDescending_length {α : Type} [Num α] (m : Matrix α) (s : LinFun α) (ps : List Int)
+    (h : rankDescending m s = .ok ps) : ps.length = m.size := by
+  unfold rankDescending at h
+  simp only [bind, Except.bind] at h
+  split at h
+  · cases h
+  · rename_i r hr
+    split at h
+    · cases h
+    · simp only [pure, Except.pure, Except.ok.injEq] at h
+      subst h
+      simp [Rdm.rank_length m s _ r hr]
+
+/-- the class numbers returned by `rank` are exactly `1, …, 1 + k`: numbering starts at 1, is consecutive, and
+    every class is non-empty (any number type, any distillation function, whenever the model returns) -/
+theorem rank_classes_consecutive {α : Type} [Num α] (m : Matrix α) (s : LinFun α) (cmp : Int → Int → Bool)
+    (ps : List Int) (h : rank m s cmp = .ok ps) : ∃ k : Nat, ∀ x, x ∈ ps ↔ 1 ≤ x ∧ x ≤ 1 + k :=
+  rank_classes m s cmp ps h
+
+/-- … so the "consecutive from 1" clause of the checker holds for `RankAscending` -/
+theorem ascending_consecutive_from_1 {α : Type} [Num α] (m : Matrix α) (s : LinFun α) (ps : List Int)
+    (h : rankAscending m s = .ok ps) : Spec.C05.consecutiveFrom1 ps = true :=
+  rankAscending_consecutive m s ps h
+
+/-- … and, after the reversal of the numbering, for `RankDescending` -/
+theorem descending_consecutive_from_1 {α : Type} [Num α] (m : Matrix α) (s : LinFun α) (ps : List Int)
+    (h : rankDescending m s = .ok ps) : Spec.C05.consecutiveFrom1 ps = true :=
+  rankDescending_consecutive m s ps h
+
+/-- **termination / fuel sufficiency**: for every non-empty square matrix with entries in [0,1] and every
+    in-domain distillation function (`s ≥ 0` on [0,1]; the slope is irrelevant here) the fuel `n² + n + 2`
+    suffices and no other error occurs — `rank` returns a vector.  (For a function that is negative somewhere on
+    [0,1] the Go code can recurse forever; such functions are rejected by `getDistillationFunc`.) -/
+theorem rank_terminates (m : Matrix Rat) (s : LinFun Rat) (cmp : Int → Int → Bool)
+    (hs : Spec.C05.distInDomain s = true) (hsz : m.size ≠ 0)
+    (hlen : m.data.length = m.size * m.size) (hrng : ∀ x ∈ m.data, 0 ≤ x ∧ x ≤ 1) :
+    ∃ ps, rank m s cmp = .ok ps :=
+  rank_total m s cmp (distInDomain_nonneg s hs) hsz hlen hrng
+
+/-- both distillations of an in-domain problem succeed, with one class number per alternative, consecutive from 1 -/
+theorem distillations_total (m : Matrix Rat) (s : LinFun Rat)
+    (hs : Spec.C05.distInDomain s = true) (hsz : m.size ≠ 0)
+    (hlen : m.data.length = m.size * m.size) (hrng : ∀ x ∈ m.data, 0 ≤ x ∧ x ≤ 1) :
+    ∃ asc desc, rankAscending m s = .ok asc ∧ rankDescending m s = .ok desc ∧
+      asc.length = m.size ∧ desc.length = m.size ∧
+      Spec.C05.consecutiveFrom1 asc = true ∧ Spec.C05.consecutiveFrom1 desc = true := by
+  obtain ⟨asc, ha⟩ := rank_total m s cmpGreater (distInDomain_nonneg s hs) hsz hlen hrng
+  obtain ⟨r, hr⟩ := rank_total m s cmpLower (distInDomain_nonneg s hs) hsz hlen hrng
+  have hrl := Rdm.rank_length m s _ r hr
+  have hd : ∃ desc, rankDescending m s = .ok desc := by
+    unfold rankDescending
+    simp only [hr, bind, Except.bind]
+    cases r with
+    | nil => simp at hrl; exact absurd hrl.symm hsz
+    | cons v rest => exact ⟨_, rfl⟩
+  obtain ⟨desc, hd⟩ := hd
+  exact ⟨asc, desc, ha, hd, Rdm.rank_length m s _ asc ha, rankDescending_length m s desc hd,
+    rankAscending_consecutive m s asc ha, rankDescending_consecutive m s desc hd⟩
+
+/-! ### refinement to the declarative distillation -/
+
+/-- **refinement**: the class numbers returned by `RankAscending` of the model are those of the declarative
+    distillation of `Spec.C05` (index sets of original alternative numbers; cut level `max{σ < λ − s(λ)}`,
+    outranking, qualification, best set, narrowing, class removal, numbering from 1).  The re-indexing of the
+    code (`Slice`, `Without`, sequential write-back, flat `i / Size`, `i % Size` scans) is invisible.
+    Holds for every square matrix and every distillation function, whenever the model returns. -/
+theorem rank_ascending_refines_spec (m : Matrix Rat) (s : LinFun Rat) (hlen : m.data.length = m.size * m.size)
+    (asc : List Int) (h : rankAscending m s = .ok asc) : Spec.C05.specAscending m s = some asc :=
+  rankAscending_refines m s hlen asc h
+
+/-- … and those of `RankDescending` are the classes of the min-qualification distillation with the numbering
+    reversed -/
+theorem rank_descending_refines_spec (m : Matrix Rat) (s : LinFun Rat) (hlen : m.data.length = m.size * m.size)
+    (desc : List Int) (h : rankDescending m s = .ok desc) : Spec.C05.specDescending m s = some desc :=
+  rankDescending_refines m s hlen desc h
+
+/-- in-domain summary: for a non-empty square matrix with entries in [0,1] and an in-domain distillation
+    function both distillations of the model succeed and equal the declarative ones -/
+theorem distillations_equal_spec (m : Matrix Rat) (s : LinFun Rat)
+    (hs : Spec.C05.distInDomain s = true) (hsz : m.size ≠ 0)
+    (hlen : m.data.length = m.size * m.size) (hrng : ∀ x ∈ m.data, 0 ≤ x ∧ x ≤ 1) :
+    ∃ asc desc, rankAscending m s = .ok asc ∧ rankDescending m s = .ok desc ∧
+      Spec.C05.specAscending m s = some asc ∧ Spec.C05.specDescending m s = some desc := by
+  obtain ⟨asc, desc, ha, hd, _⟩ := distillations_total m s hs hsz hlen hrng
+  exact ⟨asc, desc, ha, hd, rankAscending_refines m s hlen asc ha, rankDescending_refines m s hlen desc hd⟩
+
+/-- the default distillation function of the code (constants regenerated from distilation.go on every run)
+    is in the domain: non-negative on [0,1] with non-positive slope -/
+theorem default_distillation_in_domain : Spec.C05.distInDomain (defaultDistillation : LinFun Rat) = true := by
+  simp [Spec.C05.distInDomain, defaultDistillation, Facts.defaultDistillationA, Facts.defaultDistillationB]
+  norm_num
+
+/-! ### the hypotheses are satisfiable -/
+
+example : Spec.C05.critInDomain (⟨2, ⟨0, 1/2⟩, ⟨0, 1⟩, ⟨0, 3⟩⟩ : ECrit Rat) = true := by
+  simp [Spec.C05.critInDomain]; norm_num
+example : Spec.C05.critInDomain (⟨1, ⟨0, 0⟩, ⟨0, 0⟩, ⟨0, 0⟩⟩ : ECrit Rat) = true := by decide
+example : Spec.C05.distInDomain (⟨0, 0⟩ : LinFun Rat) = true := by simp [Spec.C05.distInDomain]
+example : ∃ ps, rank (⟨2, [1, 1/2, 1/4, 1]⟩ : Matrix Rat) defaultDistillation cmpGreater = .ok ps :=
+  rank_terminates _ _ _ default_distillation_in_domain (by simp) (by simp) (by
+    intro x hx
+    simp only [List.mem_cons, List.not_mem_nil, or_false] at hx
+    rcases hx with rfl | rfl | rfl | rfl <;> norm_num)
+
+/-- the constants and names this property depends on were re-read from the working tree on this run
+    (none fell back to its pinned value because its declaration could not be located) -/
+theorem facts_fresh : (Rdm.Facts.staleFacts.all fun n => !["defaultDistillationA", "defaultDistillationB", "methodElectre", "paramElectreCriteria", "paramElectreDistillation"].contains n) = true := by decide
+
 end Rdm.Props.C05
